@@ -61,10 +61,10 @@ End ReplayProofs.
 
 From Coq Require Import String.
 
-(* a log with two collections replays, a log whose threshold is not GROWTH * survivors does not, and a log of a
+(* a log with two collections replays (compressed records included), a log whose threshold is not GROWTH * survivors does not, and a log of a
    heap that never collects breaks the bound *)
 Example ex_replay :
-  run_pacing_log 100 2 100 2 "60 0 100 0 60 100;60 60 100 0 120 100;10 120 100 1 50 80;40 50 80 0 90 80;8 90 80 1 98 180"%string
+  run_pacing_log 100 2 100 2 "60 0 100 0 60 100;60;10 1 50 80;40;8 90 80 1 98 180"%string
     = "M:OK|S:OK|n=5 col=2 freed=80 max=120"%string /\
   run_pacing_log 100 2 100 2 "60 0 100 0 60 100;60 60 100 0 120 100;10 120 100 1 50 0"%string
     = "M:MISMATCH@2#7|S:OK|n=3 col=1 freed=80 max=120"%string /\
